@@ -291,6 +291,13 @@ func (P *Program) verify(fn *ssa.Function, timeoutMs int, par int, keepDir strin
 		}
 	}
 	tr(fmt.Sprintf("final vc: %d obligations, %d items", len(vc.obligs), len(vc.items)))
+	// functions that divide by a symbolic value: a short exact attempt first, then the division-abstracted attempt with the
+	// full budget, and only then the exact query again with the full budget
+	symDiv := funcHasSymbolicDiv(fn, 3)
+	firstBudget := timeoutMs
+	if symDiv && firstBudget > 8000 {
+		firstBudget = 8000
+	}
 	if len(skip) > 0 {
 		var keep []*Oblig
 		for _, o := range vc.obligs {
@@ -303,10 +310,10 @@ func (P *Program) verify(fn *ssa.Function, timeoutMs int, par int, keepDir strin
 		}
 		all := vc.obligs
 		vc.obligs = keep
-		vc.discharge(timeoutMs, par, keepDir)
+		vc.discharge(firstBudget, par, keepDir)
 		vc.obligs = all
 	} else {
-		vc.discharge(timeoutMs, par, keepDir)
+		vc.discharge(firstBudget, par, keepDir)
 	}
 	tr("discharged")
 	// Second attempt for undecided obligations of functions that divide by a symbolic value: bit-blasted 64-bit
@@ -319,7 +326,7 @@ func (P *Program) verify(fn *ssa.Function, timeoutMs int, par int, keepDir strin
 				undecided[o.Name] = o
 			}
 		}
-		if len(undecided) > 0 && funcHasSymbolicDiv(fn, 3) {
+		if len(undecided) > 0 && symDiv {
 			vc2 := P.genVC(fn, genOpts{houdini: true, houdiniCheck: false, autoInv: autoInv, noInline: noInline, abstractDiv: true})
 			if vc2.err == nil {
 				var again []*Oblig
@@ -340,6 +347,20 @@ func (P *Program) verify(fn *ssa.Function, timeoutMs int, par int, keepDir strin
 				}
 			}
 			tr("division-abstracted retry")
+			if firstBudget < timeoutMs {
+				var rest []*Oblig
+				for _, o := range vc.obligs {
+					if o.Status != "unsat" && o.Status != "sat" && o.Status != "skipped" {
+						rest = append(rest, o)
+					}
+				}
+				if len(rest) > 0 {
+					all := vc.obligs
+					vc.obligs = rest
+					vc.discharge(timeoutMs, par, keepDir)
+					vc.obligs = all
+				}
+			}
 		}
 	}
 	if P.contractFor(fn) != nil || vc.usedContracts {
